@@ -283,27 +283,26 @@ void NTT_Goldilocks::reversePermutation(Goldilocks::Element *dst, Goldilocks::El
     }
     else
     {
-        if (extension <= 1)
+        assert(offset_cols == 0 && ncols == ncols_all); // single block
+        if (extension > 1)
         {
-            assert(offset_cols == 0 && ncols == ncols_all); // single block
-#pragma omp parallel for schedule(static)
-            for (u_int64_t i = 0; i < size; i++)
-            {
-                u_int64_t r = BR(i, domainSize);
-                u_int64_t offset_r = r * ncols;
-                u_int64_t offset_i = i * ncols;
-                if (r < i)
-                {
-                    Goldilocks::Element tmp[ncols];
-                    std::memcpy(&tmp[0], &src[offset_r], ncols * sizeof(Goldilocks::Element));
-                    std::memcpy(&dst[offset_r], &src[offset_i], ncols * sizeof(Goldilocks::Element));
-                    std::memcpy(&dst[offset_i], &tmp[0], ncols * sizeof(Goldilocks::Element));
-                }
-            }
+            // rows beyond size / extension count as zero: write the padding, then permute in place
+            u_int64_t ext_ = (size / extension) * ncols;
+            Goldilocks::parSetZero(&dst[ext_], size * ncols - ext_, nThreads);
         }
-        else
+#pragma omp parallel for schedule(static)
+        for (u_int64_t i = 0; i < size; i++)
         {
-            assert(0); // Option not implemented yet
+            u_int64_t r = BR(i, domainSize);
+            u_int64_t offset_r = r * ncols;
+            u_int64_t offset_i = i * ncols;
+            if (r < i)
+            {
+                Goldilocks::Element tmp[ncols];
+                std::memcpy(&tmp[0], &src[offset_r], ncols * sizeof(Goldilocks::Element));
+                std::memcpy(&dst[offset_r], &src[offset_i], ncols * sizeof(Goldilocks::Element));
+                std::memcpy(&dst[offset_i], &tmp[0], ncols * sizeof(Goldilocks::Element));
+            }
         }
     }
 }
